@@ -453,6 +453,9 @@ func (w *vfWorld) ipsAdmissible(s *vfSvcReq, ips []string, strict bool, ignoreSh
 	if len(ips) == 0 {
 		return false, "no address"
 	}
+	if !s.IsLB {
+		return false, "not a LoadBalancer"
+	}
 	pn := vfPoolOf(w.Pools, ips)
 	if pn == "" || pn == "*" {
 		return false, "not in exactly one pool"
